@@ -53,7 +53,10 @@ pub fn stmts() -> ZooLang {
         .supertype("_expr")
         .inline("_inl_stmt")
         .rule("program", rep(sym("_statement")))
-        .rule("_statement", choice(vec![sym("let_stmt"), sym("if_stmt"), sym("_inl_stmt"), sym("block"), sym("fn_def"), sym("empty_stmt"), sym("annotation")]))
+        .rule("_statement", choice(vec![sym("let_stmt"), sym("if_stmt"), sym("_inl_stmt"), sym("block"), sym("fn_def"), sym("empty_stmt"), sym("annotation"), sym("sigil_decl")]))
+        // one visible rule under two different aliases in two productions of the same parent: replacing the sigil switches the
+        // production, and with it the child's node type, without touching the child
+        .rule("sigil_decl", choice(vec![seq(vec![s("$"), alias(sym("identifier"), "variable", true), s(";")]), seq(vec![s("%"), alias(sym("identifier"), "module", true), s(";")])]))
         // `block_comment` is an extra AND a regular member of this rule: a reused comment token can change its extra-ness
         .rule("annotation", seq(vec![s("@"), sym("block_comment")]))
         .rule("_inl_stmt", sym("expr_stmt"))
@@ -82,11 +85,13 @@ pub fn stmts() -> ZooLang {
         .extras(vec![pat("\\s"), sym("comment"), sym("block_comment")]);
     ZooLang {
         name: "stmts", spec: spec(g, None),
-        lexemes: vec!["let", "if", "else", "fn", "a", "1", "=", ";", "{", "}", "(", ")", "+", "*", "..", "...", ",", "#c\n", "/*c*/", "@", " ", "\n"],
+        lexemes: vec!["let", "if", "else", "fn", "a", "1", "=", ";", "{", "}", "(", ")", "+", "*", "..", "...", ",", "#c\n", "/*c*/", "@", "$", "%", " ", "\n"],
         seeds: vec![
             "", "a;", "let a = 1;", "let x = a + 1 * b;\nf(x, 2);\n", "if a { b; } else { c; }", "if a { } else if b { c; } else { d; }",
             "fn f(a, b) { let c = a..b; g(c)(1); }", "{ a; # note\n b; /* x */ c; }", "let a = (1 + 2) * 3 ... 4;", "lett = 1;", "let let = 1;",
             "if a { b;", "a b;", "fn (a) {}", "let a = 1 @;", "{{{ a; }}}", "a;b;c;d;e;f;g;h;", "iff; elsee; fnn; if_x;", "let é = 1;", "1..2...3;", "@ /*a\nb*/ x;", "@/*c*/ /*d*/ @ /*e*/",
+            // keyword text used as an identifier (a keyword is only a keyword where the grammar allows it), first leaf of a call
+            "a+if(b);", "a*let(b);", "a+fn(b);", "f(else);", "$a; %b;", "$ if;",
         ],
         skippable: b" \t\r\n", has_scanner: false,
     }
